@@ -16,7 +16,9 @@ inductive Outcome where
   | exited (code : Nat)          -- ran and returned `code` (0..255)
   | killed (sig : Nat)           -- terminated abnormally (by signal `sig`)
   | connectFailed                -- the host could not be reached
-  | timedOut                     -- the command time-out fired
+  | timedOut                     -- the command time-out fired (a command that, terminated for that reason, still
+                                 -- returned a code is described by this AND `.exited code`: `admissible` takes
+                                 -- `any` / `max` over the list, so a target may contribute two observations)
   deriving DecidableEq, Repr
 
 def Outcome.unreachable : Outcome → Bool
